@@ -53,7 +53,8 @@ Allowed(c) == CASE c = "apitoken" -> {"ES256", "ES384", "ES512", "EdDSA", "RS512
 (*  signer legit | attacker | nobody   (who made the signature under test) *)
 (*  sigok  the signature value is genuine for (signer, label) over the     *)
 (*         canonical encoding of the header/payload the token now carries  *)
-(*  keyref asvalid | other-party | attacker-known   (kid / verif. method)  *)
+(*  keyref asvalid | other-party | attacker-known | lookalike              *)
+(*         (kid / verification method)                                     *)
 (*  keyhdr asvalid | jwk-attacker | jwk-private | jwk-private-own | jku |  *)
 (*         x5u | x5c                                                       *)
 (*  enc    canonical | {h,p,s}-pad | {h,p,s}-noncanon | s-stdalpha |       *)
@@ -83,6 +84,11 @@ VTab ==
     ("own-private-key-embedded" :> [D EXCEPT !.keyhdr = "jwk-private-own"]) @@
     ("kid-other-party" :> [D EXCEPT !.keyref = "other-party", !.sigok = FALSE]) @@
     ("kid-attacker-resigned" :> [D EXCEPT !.keyref = "attacker-known", !.signer = "attacker"]) @@
+    \* a hostile party whose resolvable key id RESEMBLES the legitimate one signs in the legitimate party's name:
+    \* its DID extends the legitimate DID as a string / is a proper prefix of it / its fragment contains the legitimate DID
+    ("kid-lookalike-ext-resigned" :> [D EXCEPT !.keyref = "lookalike", !.signer = "attacker"]) @@
+    ("kid-lookalike-pre-resigned" :> [D EXCEPT !.keyref = "lookalike", !.signer = "attacker"]) @@
+    ("kid-lookalike-frag-resigned" :> [D EXCEPT !.keyref = "lookalike", !.signer = "attacker"]) @@
     ("key-swapped" :> [D EXCEPT !.signer = "attacker"]) @@
     ("protected-altered" :> [D EXCEPT !.sigok = FALSE]) @@
     ("payload-altered" :> [D EXCEPT !.sigok = FALSE]) @@
@@ -94,6 +100,8 @@ VTab ==
     ("noncanon-s" :> [D EXCEPT !.enc = "s-noncanon"]) @@ ("stdalpha-s" :> [D EXCEPT !.enc = "s-stdalpha"]) @@
     ("extra-segment" :> [D EXCEPT !.enc = "extra-seg"])
 Variants == DOMAIN VTab
+Lookalikes == {"kid-lookalike-ext-resigned", "kid-lookalike-pre-resigned", "kid-lookalike-frag-resigned"}
+AttackerRef == {"attacker-known", "lookalike"}      \* key references that resolve to a key of the hostile party
 
 \* does the variant exist for this consumer / key family (mirrors the concretiser)
 Applicable(c, f, v) ==
@@ -101,6 +109,7 @@ Applicable(c, f, v) ==
       [] v = "own-private-key-embedded" -> c \in SelfKeyed
       [] v = "kid-other-party" -> c \notin SelfKeyed
       [] v = "kid-attacker-resigned" -> c \notin SelfKeyed \cup {"apitoken"}   \* the attacker's key is not in authorized_keys
+      [] v \in Lookalikes -> c \in {"vcjwt", "vpjwt", "jar", "dagtx-kid", "ldproof"}   \* consumers that bind a key id to a DID
       [] v \in {"pad-p", "noncanon-p", "sweep-p"} -> c # "ldproof"                         \* detached payload
       [] v \in {"pad-s", "noncanon-s"} -> f \notin {"p384", "p521"}             \* 96/132 signature bytes encode without remainder
       [] OTHER -> TRUE
@@ -159,14 +168,14 @@ SelectKey ==
                    /\ phase' = "verify" /\ UNCHANGED <<cs, verdict>>
          [] C = "dagtx-kid" ->
               IF A.keyhdr \in {"jwk-attacker", "jwk-private"} THEN Reject       \* kid and jwk are mutually exclusive
-              ELSE /\ key' = (CASE A.keyref = "other-party" -> "other" [] A.keyref = "attacker-known" -> "attacker" [] OTHER -> "legit")
+              ELSE /\ key' = (CASE A.keyref = "other-party" -> "other" [] A.keyref \in AttackerRef -> "attacker" [] OTHER -> "legit")
                    /\ phase' = "verify" /\ UNCHANGED <<cs, verdict>>
          [] C = "apitoken" ->
               IF A.keyhdr # "asvalid" THEN Reject                                \* jwk / jku / x5c / x5u are forbidden
               ELSE /\ key' = (IF A.keyref = "other-party" THEN "other" ELSE "legit")
                    /\ phase' = "verify" /\ UNCHANGED <<cs, verdict>>
          [] OTHER ->   \* vcjwt, vpjwt, jar: resolver(kid); ldproof: resolver(proof.verificationMethod); headers ignored
-              /\ key' = (CASE A.keyref = "other-party" -> "other" [] A.keyref = "attacker-known" -> "attacker" [] OTHER -> "legit")
+              /\ key' = (CASE A.keyref = "other-party" -> "other" [] A.keyref \in AttackerRef -> "attacker" [] OTHER -> "legit")
               /\ phase' = "verify" /\ UNCHANGED <<cs, verdict>>
 
 \* the signature verifies with the selected key
@@ -183,7 +192,7 @@ Verify == /\ phase = "verify"
 \* is the key holder the party the token speaks for?
 Bind == /\ phase = "bind"
         /\ IF \/ key = "legit"
-              \/ key = "attacker" /\ C \in {"vpjwt", "dagtx-kid"} /\ A.keyref = "attacker-known"   \* signer := DID of the kid
+              \/ key = "attacker" /\ C \in {"vpjwt", "dagtx-kid"} /\ A.keyref \in AttackerRef      \* signer := DID of the kid
               \/ key = "attacker" /\ C = "dagtx-jwk"                                                \* self-keyed transaction
            THEN /\ verdict' = "accept" /\ phase' = "done" /\ UNCHANGED <<cs, key>>
            ELSE Reject   \* vcjwt: kid DID # issuer; jar: key not in the client's key set; dpop: jkt mismatch; apitoken: iss # user
@@ -201,7 +210,7 @@ Sound(c, f, a) ==
     /\ a.sigok /\ a.enc \notin HPEnc                                \* verified over the exact bytes received
     /\ a.keyhdr \notin {"jwk-private", "jwk-private-own"}          \* embedded private keys are refused
     /\ \/ a.signer = "legit"                                        \* key taken from where the protocol says
-       \/ a.signer = "attacker" /\ c \in {"vpjwt", "dagtx-kid"} /\ a.keyref = "attacker-known"   \* = a genuine token of that party
+       \/ a.signer = "attacker" /\ c \in {"vpjwt", "dagtx-kid"} /\ a.keyref \in AttackerRef    \* = a genuine token of that party
        \/ a.signer = "attacker" /\ c = "dagtx-jwk" /\ a.keyhdr = "jwk-attacker"                  \* = a genuine self-keyed tx
 MustReject == ~Sound(C, F, A)
 AcceptSound == verdict = "accept" => ~MustReject
